@@ -1204,3 +1204,42 @@ def check_parsed_elements_kept(ctx, rep):
             else:
                 rep.ok("T-KEEP", key, b.where(bi), "stored whatever its value")
     return n
+
+
+def check_quoted_interpolations(ctx, rep):
+    """closed world over every formatter in src/haystack: a text put between double quotes by a format string is either a constant
+    or has gone through the Str writer - never a String field interpolated as it is (a `"` or `\\` inside it ends the literal early
+    when the text is read back). The one place that prints `@id "dis"` with escaping is Ref's Zinc writer; `Display for Ref`, which
+    the filter printer uses for `*==` and relationship terms, prints the id only"""
+    prog = ctx.prog
+    n = 0
+    bad = []
+    for b in prog.bodies.values():
+        if "::test" in b.id or not b.file.startswith("src/haystack/"):
+            continue
+        for bi, t in b.calls():
+            nm = strip_generics(mir.callee_name(t) or "")
+            if nm not in ("std::io::Write::write_fmt", "std::fmt::Formatter::write_fmt", "std::fmt::format"):
+                continue
+            a = fmtargs.arguments_of(b, t["args"][-1])
+            if not a or not a[1]:
+                continue
+            pieces, args = a
+            for k, p in enumerate(pieces):
+                if p[0] != "arg":
+                    continue
+                prev = pieces[k - 1][1] if k > 0 and pieces[k - 1][0] == "lit" else ""
+                if not prev.endswith('"'):
+                    continue
+                n += 1
+                tr, ty, vop = args[p[1]["index"]]
+                v = G.describe(b, vop)
+                if v.kind == "conststr":
+                    continue
+                bad.append((b, bi, ty, repr(v)[:80]))
+    if bad:
+        b, bi, ty, what = bad[0]
+        rep.bad("T-ESC", "T-ESC:quoted-interpolation:%s" % b.short, b.where(bi), "%s puts %s (%s) between double quotes without escaping: a quote or backslash in it breaks the literal when the text is parsed again" % (b.short.split("::")[-2] if "::" in b.short else b.short, what, ty))
+    else:
+        rep.ok("T-ESC", "quoted-interpolation:none-raw", "-", "%d quoted interpolation(s) in src/haystack, all constants" % n)
+    return n
